@@ -3,6 +3,18 @@ import json, os
 VERIF = os.path.dirname(os.path.dirname(os.path.abspath(__file__)))
 PROOF = "proof"
 CHECKS = {
+ "C17": dict(
+    text="Lean 4 theorems (any field, any matrix sizes): one swap of the maxvol loop preserves C·A[idx] = A whenever the pivot is non-zero, "
+         "and the whole fuel-bounded loop does (the guard tol<|C[i,j]| with tol≥0 gives the non-zero pivot). The model's swap loop "
+         "(exact rationals) is run from the LAPACK start recorded from the implementation and must end on the same rows (near-ties of "
+         "the arg-max / tolerance are detected and discarded). All postconditions of both routines (distinct rows, non-singular "
+         "submatrix, C[idx]=I, |C|≤tol unless capped, rectangular bounds r≤K≤maxK, row norms ≤ tol) by a NumPy oracle over Gaussian, "
+         "orthonormal, duplicated-row and tiny-row matrices.",
+    note="Trusted: Lean kernel + standard axioms; LAPACK getrf/trtrs (start recorded, contract C·A[idx]=A assumed); harness glue; "
+         "sampling; float near-ties discarded and counted. loop_reconstructs assumes the arg-max returns a row index < r (a property "
+         "of the model's own argmaxAbs, exercised by the correspondence). rect_maxvol has no Lean model (oracle only).",
+    tech="Lean 4 proof (rank-1 update identity; loop invariant by induction on fuel) + kernel-recording correspondence + NumPy oracle",
+    ref="§3 C17"),
  "C04": dict(
     text="Lean 4 theorems (ordered field): the rank chosen by truncated_svd is the least rank whose discarded tail of squared singular "
          "values is within δ², at least 1, at most rmax and at most the number of singular values (so ranks never rise, rmax is "
